@@ -91,7 +91,8 @@ func init() {
 
 // failureEdgesOf returns a cut predicate for the non-nil edges of the error result of call.
 func errorEdgeCut(fn *ssa.Function, call *ssa.Call, cutNonNil bool) func(from, to *ssa.BasicBlock) bool {
-	if call != nil && call.Parent() != fn && outermost(call.Parent()) != outermost(fn) {
+	orig := call
+	if call != nil && call.Parent() != fn && lexicalOutermost(call.Parent()) != lexicalOutermost(fn) {
 		// the step sits in a new helper: the error fn tests is that of the helper's call (the helper hands the
 		// step's error on — the ERRFLOW rules of the properties cover the helpers too)
 		if s2, ok := siteIn(fn, call).(*ssa.Call); ok && s2 != nil {
@@ -101,6 +102,17 @@ func errorEdgeCut(fn *ssa.Function, call *ssa.Call, cutNonNil bool) func(from, t
 	var tests []nilTest
 	for _, e := range errResults(call) {
 		tests = append(tests, nilTestsOf(fn, e)...)
+	}
+	if orig != nil && orig != call {
+		// also inside the helpers the step sits in: the step's own error edge, and that of each enclosing
+		// helper's call (reach walks the helpers from a start point inside them)
+		for _, lv := range projectChain(orig) {
+			if lc, ok := lv.(*ssa.Call); ok && lc != call {
+				for _, e := range errResults(lc) {
+					tests = append(tests, nilTestsOf(lc.Parent(), e)...)
+				}
+			}
+		}
 	}
 	return func(from, to *ssa.BasicBlock) bool {
 		for _, t := range tests {
@@ -688,8 +700,8 @@ func checkC07(c *Ctx) Meta {
 		if f == nil {
 			continue
 		}
-		for _, fn := range withClosures(f) {
-			allInstrs(fn, func(in ssa.Instruction) {
+		for _, fn := range bodyFns(f, nil) { // with the phase helpers the reference tree does not have
+			allInstrsShallow(fn, func(in ssa.Instruction) {
 				cl, ok := in.(*ssa.Call)
 				if !ok {
 					return
@@ -1079,7 +1091,7 @@ func slotMapping(fn *ssa.Function) string {
 	var out []string
 	for _, f := range bodyFns(fn, nil) { // fn, its closures and helpers the reference tree does not have
 		f := f
-		allInstrs(f, func(in ssa.Instruction) {
+		allInstrsShallow(f, func(in ssa.Instruction) {
 			bo, ok := in.(*ssa.BinOp)
 			if !ok {
 				return
@@ -1120,7 +1132,31 @@ func slotMapping(fn *ssa.Function) string {
 				sort.Strings(es)
 				return strings.Join(es, ";")
 			}
-			out = append(out, fmt.Sprintf("%s %s %s ? %s : %s", l, bo.Op, r, branch(t.TrueSucc), branch(t.FalseSucc)))
+			// canonical form `v < half ? lower : upper`, whatever way the condition is written
+			// (v >= half with the branches swapped, half > v, …)
+			lower, upper := branch(t.TrueSucc), branch(t.FalseSucc)
+			op := bo.Op
+			if l == "half" { // half OP v  ==  v OP' half
+				switch op {
+				case token.LSS:
+					op = token.GTR
+				case token.LEQ:
+					op = token.GEQ
+				case token.GTR:
+					op = token.LSS
+				case token.GEQ:
+					op = token.LEQ
+				}
+			}
+			switch op {
+			case token.GEQ: // v >= half ? upper : lower
+				lower, upper = upper, lower
+				op = token.LSS
+			case token.GTR: // v > half ? … : …  (a different boundary: keep it visible)
+				lower, upper = upper, lower
+				op = token.LEQ
+			}
+			out = append(out, fmt.Sprintf("v %s half ? %s : %s", op, lower, upper))
 		})
 	}
 	sort.Strings(out)
@@ -1223,6 +1259,8 @@ func checkC07ScanOwn(c *Ctx) {
 			c.Bad("C07-SCAN", "plotWork:anchor", c.Pos(f.Pos()), "reason=anchor-missing: io.ReadFull in the pair loop")
 		} else {
 			rd := reads[0]
+			// the pair loop may sit in a phase helper the reference tree does not have
+			f = hostFn(f, rd)
 			// the loop variable: phi compared with `half` in a re-entered block dominating the read
 			var yphi *ssa.Phi
 			allInstrs(f, func(in ssa.Instruction) {
@@ -1302,9 +1340,9 @@ func checkC07ScanOwn(c *Ctx) {
 		key := strings.NewReplacer("(", "", "*", "", ")", "").Replace(spec.fn) + ":windows-cover-the-whole-table"
 		// the outermost loop whose condition compares a phi with something derived from the volume field
 		var outer *ssa.If
-		allInstrs(f, func(in ssa.Instruction) {
+		allInstrsNew(f, func(in ssa.Instruction) { // the window loop may sit in a phase helper the reference tree does not have
 			iff, ok := in.(*ssa.If)
-			if !ok || !blockReentered(f, iff) {
+			if !ok || !blockReentered(iff.Parent(), iff) {
 				return
 			}
 			cmp, isB := iff.Cond.(*ssa.BinOp)
@@ -1314,7 +1352,7 @@ func checkC07ScanOwn(c *Ctx) {
 			if _, isP := cmp.X.(*ssa.Phi); !isP || !backSlice(cmp.Y).hasField(pkgMassDBV1+".HashMap", "volume") {
 				return
 			}
-			if outer == nil || iff.Block().Dominates(outer.Block()) {
+			if outer == nil || (iff.Parent() == outer.Parent() && iff.Block().Dominates(outer.Block())) || (iff.Parent() != outer.Parent() && instrDominates(iff, outer)) {
 				outer = iff
 			}
 		})
@@ -1712,21 +1750,57 @@ func checkReadyRules(c *Ctx, rule string) {
 				continue
 			}
 			st := a.In.(*ssa.Store)
-			k, ok := strip(st.Val).(*ssa.Const)
-			if !ok || k.Value == nil {
+			// the value stored: a constant, or a local chosen between constants before the struct is built
+			// (`state := Registered; if plotted { state = Ready }`): each constant is judged where it is chosen
+			type choice struct {
+				k  *ssa.Const
+				at ssa.Instruction
+			}
+			var choices []choice
+			if k, ok := strip(st.Val).(*ssa.Const); ok {
+				choices = append(choices, choice{k, st})
+			} else if phi, isPhi := strip(st.Val).(*ssa.Phi); isPhi {
+				for i, e := range phi.Edges {
+					if k, ok := strip(e).(*ssa.Const); ok {
+						pred := phi.Block().Preds[i]
+						choices = append(choices, choice{k, pred.Instrs[len(pred.Instrs)-1]})
+					} else {
+						choices = nil
+						break
+					}
+				}
+			}
+			if len(choices) == 0 {
 				bad = true
 				c.Bad(rule, key, c.Pos(st.Pos()), "workspace state on open is not a constant")
 				continue
 			}
-			if k.Value.ExactString() == "2" { // engine.Ready
-				found = true
-				if len(tests) == 0 || r(st) {
+			for _, ch := range choices {
+				k := ch.k
+				if k.Value == nil {
 					bad = true
-					c.Bad(rule, key, c.Pos(st.Pos()), "state Ready is stored on a path where the plotted flag is not known to be true")
+					continue
 				}
-			} else if k.Value.ExactString() != "0" {
-				bad = true
-				c.Bad(rule, key, c.Pos(st.Pos()), "a state other than Registered/Ready is assigned on open")
+				if k.Value.ExactString() == "2" { // engine.Ready
+					found = true
+					at := ch.at
+					// a value that reaches the join straight from the test block is judged on its edge
+					onPlottedEdge := false
+					if at != ssa.Instruction(st) {
+						for _, t := range tests {
+							if at.Block() == t.If.Block() && phiBlockOf(st) == t.TrueSucc {
+								onPlottedEdge = true
+							}
+						}
+					}
+					if len(tests) == 0 || (r(at) && !onPlottedEdge) {
+						bad = true
+						c.Bad(rule, key, c.Pos(st.Pos()), "state Ready is stored on a path where the plotted flag is not known to be true")
+					}
+				} else if k.Value.ExactString() != "0" {
+					bad = true
+					c.Bad(rule, key, c.Pos(st.Pos()), "a state other than Registered/Ready is assigned on open")
+				}
 			}
 		}
 		if !found {
@@ -1785,4 +1859,12 @@ func checkReadyRules(c *Ctx, rule string) {
 		}
 	}
 
+}
+
+
+func phiBlockOf(st *ssa.Store) *ssa.BasicBlock {
+	if phi, ok := strip(st.Val).(*ssa.Phi); ok {
+		return phi.Block()
+	}
+	return nil
 }
